@@ -1,7 +1,7 @@
 import gfapy
 import re
 
-def decode(string):
+def unsafe_decode(string):
   if string == "*":
     return gfapy.Placeholder()
   else:
@@ -10,7 +10,9 @@ def decode(string):
     except:
       raise gfapy.FormatError("the string does not represent a valid integer")
 
-unsafe_decode = decode
+def decode(string):
+  validate_encoded(string)
+  return unsafe_decode(string)
 
 def validate_decoded(obj):
   if isinstance(obj, int) or isinstance(object, gfapy.Placeholder):
